@@ -67,7 +67,7 @@ Fixpoint points (c : case) (ih : list irule) (seg : list (Z * op))
 Definition case_points (c : case) := points c (map new_rule (c_rules c)) [] (c_hist c).
 
 Definition model_state (ih : list irule) :=
-  map (fun r => (map fst (map_to_list (ir_sc r)), map snd (map_to_list (ir_ix r)))) ih.
+  map (fun r => (map fst (map_to_list (ir_sc r)), map (fun kv => elements (snd kv)) (map_to_list (ir_ix r)))) ih.
 
 Definition model_obs (c : case) (p : list irule * list (Z * op) * Z * option obs) :=
   let '(ih, _, now, _) := p in
@@ -98,9 +98,8 @@ Definition cache_agree (c : case) (r : irule) (o : list Z) : bool :=
 Definition class_key (c : case) (r : irule) (cl : list Z) : list string :=
   match cl with [] => [] | i :: _ => eqkey (ir_cfg r) (lset_of c i) end.
 Definition class_agree (c : case) (r : irule) (cl : list Z) : bool :=
-  let mcl := ix_get (ir_ix r) (class_key c r cl) in
-  let s : gset (list (string * string)) := list_to_set mcl in
-  negb (beq cl []) && increasing cl && (length cl =? length mcl)%nat &&
+  let s := ix_get (ir_ix r) (class_key c r cl) in
+  negb (beq cl []) && increasing cl && (length cl =? size s)%nat &&
   forallb (fun j => bool_decide (lset_of c j ∈ s)) cl.
 Definition index_agree (c : case) (r : irule) (cls : list (list Z)) : bool :=
   (length cls =? size (ir_ix r))%nat && bool_decide (NoDup (map (class_key c r) cls)) &&
@@ -128,14 +127,18 @@ Definition prop_point (c : case) (p : list irule * list (Z * op) * Z * option ob
   let '(ih, seg, now, ob) := p in
   match ob with None => true | Some ob =>   (* evaluated where the implementation was observed, for the observed label sets *)
   let re := re_of_table (c_re c) in
-  let fire := firing_list seg now in
+  let lm := latest_map seg in
+  let fire := filter (fun a => resolved_at a now = false) (map snd (map_to_list lm)) in
   forallb (fun ls =>
     match mutes re ih ls now with
     | None => negb (inhibitedb re (c_rules c) fire ls)
     | Some fs =>
         inhibitedb re (c_rules c) fire ls &&
         negb (beq fs []) &&
-        forallb (fun f => existsb (fun s => beq (a_lbls s) f && existsb (fun r => inhibitsb re r s ls) (c_rules c)) fire) fs
+        forallb (fun f => match lm !! f with   (* every reportable fingerprint is a firing witness *)
+                          | Some s => negb (resolved_at s now) && existsb (fun r => inhibitsb re r s ls) (c_rules c)
+                          | None => false
+                          end) fs
     end) (firstn (length (o_mutes ob)) (c_lsets c))
   end.
 Definition case_hist (c : case) : list (Z * op) := map (fun x => (fst (fst x), op_of c (snd (fst x)))) (c_hist c).
